@@ -6,7 +6,9 @@ import (
 	"fmt"
 	"os"
 	"strings"
+	"sync"
 	"testing"
+	"time"
 
 	nt "github.com/mit-pdos/go-nfsd/nfstypes"
 	"pgregory.net/rapid"
@@ -296,4 +298,155 @@ func TestC08Exhaust(t *testing.T) {
 	St.Eval(n0 + n1)
 	St.ClassN("inode_exhaustion_files_created", n0+n1)
 	St.Sample(map[string]any{"kind": "inode exhaustion", "files_round0": n0, "files_round1": n1, "stale_probes": len(first)/97 + 1}, true)
+}
+
+// Handles seen by a client are never issued again for another object after a crash: the disk stops
+// accepting writes at some moment (that is the crash image) while several clients keep issuing
+// requests for a while; every handle a reply carried in that window either names the same live
+// object after recovery or is stale for ever - also for objects created after recovery.
+func TestC08GateCrash(t *testing.T) {
+	rapid.Check(t, func(t *rapid.T) {
+		unstable := rapid.Bool().Draw(t, "unstable")
+		d := NewDisk(6000)
+		d.SetRecord(false)
+		s := StartSrv(d, unstable, false)
+		x, err := NewExec(s, "C08")
+		if err != nil {
+			s.Stop()
+			failf(t, "C08", nil, "%v", err)
+		}
+		root := LiveRef(x.M.Root)
+		// some history with removals, so that low inode numbers are free and have been used before
+		for i := 0; i < rapid.IntRange(0, 6).Draw(t, "pre"); i++ {
+			name := pick(t, smallNames, "name")
+			if x.M.Root.Children[name] == nil {
+				if x.Create(root, name) != nil {
+					s.Stop()
+					return
+				}
+			} else if x.Remove(root, name) != nil {
+				s.Stop()
+				return
+			}
+		}
+		if rapid.Bool().Draw(t, "restart") {
+			if x.Restart() != nil {
+				x.S.Stop()
+				return
+			}
+		}
+		s = x.S
+		api := s.API()
+		rootfh := s.RootFH()
+		img := d.CloseGate() // from here on nothing reaches the disk: this is the crash image
+		type seen struct {
+			name string
+			fh   []byte
+			how  string
+		}
+		var mu sync.Mutex
+		var observed []seen
+		nclients := rapid.IntRange(2, 4).Draw(t, "clients")
+		names := []string{"g0", "g1", "a", "b"}
+		var wg sync.WaitGroup
+		stop := make(chan struct{})
+		progs := make([][]string, nclients)
+		for c := range progs {
+			for i := 0; i < rapid.IntRange(1, 3).Draw(t, "nops"); i++ {
+				progs[c] = append(progs[c], pick(t, []string{"create", "mkdir", "lookup", "lookup", "lookup"}, "op")+" "+pick(t, names, "gname"))
+			}
+		}
+		for c := range progs {
+			wg.Add(1)
+			go func(c int) {
+				defer wg.Done()
+				for _, op := range progs[c] {
+					kind, name := op[:strings.Index(op, " ")], op[strings.Index(op, " ")+1:]
+					for rep := 0; rep < 40; rep++ {
+						var fh []byte
+						switch kind {
+						case "create":
+							r := api.NFSPROC3_CREATE(nt.CREATE3args{Where: nt.Diropargs3{Dir: rootfh, Name: nt.Filename3(name)}})
+							if r.Status == nt.NFS3_OK {
+								fh = r.Resok.Obj.Handle.Data
+							}
+							rep = 40
+						case "mkdir":
+							r := api.NFSPROC3_MKDIR(nt.MKDIR3args{Where: nt.Diropargs3{Dir: rootfh, Name: nt.Filename3(name)}})
+							if r.Status == nt.NFS3_OK {
+								fh = r.Resok.Obj.Handle.Data
+							}
+							rep = 40
+						default:
+							r := api.NFSPROC3_LOOKUP(nt.LOOKUP3args{What: nt.Diropargs3{Dir: rootfh, Name: nt.Filename3(name)}})
+							if r.Status == nt.NFS3_OK {
+								fh = r.Resok.Object.Data
+							}
+						}
+						select {
+						case <-stop:
+							return // replies after the device came back are not part of the window
+						default:
+						}
+						if fh != nil {
+							mu.Lock()
+							observed = append(observed, seen{name, fh, kind})
+							mu.Unlock()
+						}
+						if kind == "lookup" {
+							time.Sleep(200 * time.Microsecond)
+						}
+					}
+				}
+			}(c)
+		}
+		time.Sleep(time.Duration(rapid.IntRange(3, 15).Draw(t, "window_ms")) * time.Millisecond)
+		close(stop)
+		mu.Lock()
+		window := append([]seen{}, observed...)
+		mu.Unlock()
+		d.OpenGate()
+		wg.Wait()
+		s.Stop()
+		// recover from the crash image
+		d2 := NewDiskFrom(d.Size(), img)
+		d2.SetRecord(false)
+		s2 := StartSrv(d2, unstable, false)
+		defer s2.Stop()
+		api2 := s2.API()
+		root2 := s2.RootFH()
+		fail := func(format string, a ...any) {
+			failf(t, "C08", map[string]any{"history": x.Log, "programs": progs, "handles_seen_while_the_disk_was_cut_off": fmt.Sprintf("%d", len(window))}, format, a...)
+		}
+		newSeen := 0
+		dead := map[string]seen{}
+		for _, o := range window {
+			lk := api2.NFSPROC3_LOOKUP(nt.LOOKUP3args{What: nt.Diropargs3{Dir: root2, Name: nt.Filename3(o.name)}})
+			ga := api2.NFSPROC3_GETATTR(nt.GETATTR3args{Object: nt.Nfs_fh3{Data: o.fh}})
+			if lk.Status == nt.NFS3_OK && string(lk.Resok.Object.Data) == string(o.fh) {
+				continue // the object survived: same name, same handle
+			}
+			newSeen++
+			if ga.Status != nt.NFS3ERR_STALE {
+				fail("a client received handle %x (%s %q) while the disk was cut off; after recovery the object is gone, yet GETATTR of that handle answers %d, not NFS3ERR_STALE", o.fh, o.how, o.name, ga.Status)
+			}
+			dead[string(o.fh)] = o
+		}
+		// new objects after recovery must not get any of those handles
+		for i := 0; i < 8; i++ {
+			r := api2.NFSPROC3_CREATE(nt.CREATE3args{Where: nt.Diropargs3{Dir: root2, Name: nt.Filename3(fmt.Sprintf("after%d", i))}})
+			if r.Status != nt.NFS3_OK {
+				break
+			}
+			if o, dup := dead[string(r.Resok.Obj.Handle.Data)]; dup {
+				fail("handle %x was returned to a client (%s %q) before the crash; after recovery it is issued again for the new object after%d", o.fh, o.how, o.name, i)
+			}
+		}
+		St.Eval(1)
+		St.ClassN("handles_seen_while_the_disk_was_cut_off", len(window))
+		if newSeen > 0 {
+			St.Class("window_with_handles_of_objects_lost_in_the_crash")
+		}
+		St.NT(Hash("gate", x.Log, progs))
+	})
 }
